@@ -211,3 +211,131 @@ func H_C06_inline_map() {
 	verif.Assert(z.Named == v.Named, "C06/named field next to an inline map")
 	verif.Assert(verif.And(z.Rest["k1"] == v.Rest["k1"], z.Rest["k2"] == "two"), "C06/inline map entries")
 }
+
+// ---- dotted names that overlap nested structs, pointers, maps and inline structs (PathSep) ----
+
+type r3in struct {
+	Y int32    `config:"y"`
+	S []string `config:"s"`
+}
+type r3deep struct {
+	B r3in `config:"b"`
+}
+type r3inl struct {
+	X int32 `config:"a.x"`
+}
+type r3a struct { // dotted names before and after the struct they reach into
+	X int32 `config:"a.x"`
+	A r3in  `config:"a"`
+	Z int32 `config:"a.z"`
+}
+type r3b struct { // struct first
+	A r3in  `config:"a"`
+	X int32 `config:"a.x"`
+}
+type r3c struct { // pointer to struct, two levels
+	X int32   `config:"a.b.x"`
+	A *r3deep `config:"a"`
+}
+type r3d struct { // map sharing the prefix of dotted names
+	X int32            `config:"m.x"`
+	M map[string]int32 `config:"m"`
+	W int32            `config:"m.w"`
+}
+type r3e struct { // the dotted name comes from an inline struct
+	In r3inl `config:",inline"`
+	A  r3in  `config:"a"`
+}
+type r3f struct { // only dotted names sharing prefixes
+	X int32 `config:"a.b.x"`
+	Y int32 `config:"a.b.y"`
+	Z int32 `config:"a.z"`
+}
+
+func symR3in(name string) r3in {
+	v := r3in{Y: verif.Int32(name + ".y")}
+	switch verif.Choice(name+".s", 3) {
+	case 1:
+		v.S = []string{symStr(name+".s0", 1)}
+	case 2:
+		v.S = []string{symStr(name+".s0", 1), "q"}
+	}
+	return v
+}
+
+func eqR3in(a, b r3in) bool {
+	if len(a.S) != len(b.S) {
+		return false
+	}
+	res := a.Y == b.Y
+	for i := range a.S {
+		res = verif.And(res, a.S[i] == b.S[i])
+	}
+	return res
+}
+
+// H_C06_dotted: with a path separator, dotted config names and nested structs / pointers / maps /
+// inline structs may describe the same object; every declaration order must survive the round trip.
+func H_C06_dotted() {
+	opts := []ucfg.Option{ucfg.PathSep(".")}
+	x, z := verif.Int32("x"), verif.Int32("z")
+	rt := func(v, zero interface{}) bool {
+		var c *ucfg.Config
+		var err error
+		if verif.Choice("via", 2) == 0 {
+			c, err = ucfg.NewFrom(v, opts...)
+		} else {
+			c = ucfg.New()
+			err = c.Merge(v, opts...)
+		}
+		verif.Assert(err == nil, "C06/dotted: struct accepted")
+		if err != nil {
+			return false
+		}
+		err = c.Unpack(zero, opts...)
+		verif.Assert(err == nil, "C06/dotted: config unpacks into the same type")
+		return err == nil
+	}
+	shape := verif.Choice("shape", 6)
+	lbl := "C06/dotted: round trip/shape=" + itoa(shape)
+	switch shape {
+	case 0:
+		v := r3a{X: x, A: symR3in("a"), Z: z}
+		var o r3a
+		if rt(v, &o) {
+			verif.Assert(verif.And(verif.And(o.X == v.X, o.Z == v.Z), eqR3in(o.A, v.A)), lbl)
+		}
+	case 1:
+		v := r3b{X: x, A: symR3in("a")}
+		var o r3b
+		if rt(v, &o) {
+			verif.Assert(verif.And(o.X == v.X, eqR3in(o.A, v.A)), lbl)
+		}
+	case 2:
+		v := r3c{X: x, A: &r3deep{B: symR3in("a")}}
+		var o r3c
+		if rt(v, &o) {
+			verif.Assert(o.A != nil && verif.And(o.X == v.X, eqR3in(o.A.B, v.A.B)), lbl)
+		}
+	case 3:
+		v := r3d{X: x, W: z, M: map[string]int32{"k": verif.Int32("m.k")}}
+		var o r3d
+		if rt(v, &o) {
+			// the map receives every setting below m (x and w too): compare the entry the value had
+			verif.Assert(verif.And(verif.And(o.X == v.X, o.W == v.W), o.M["k"] == v.M["k"]), lbl)
+		}
+	case 4:
+		v := r3e{In: r3inl{X: x}, A: symR3in("a")}
+		var o r3e
+		if rt(v, &o) {
+			verif.Assert(verif.And(o.In.X == v.In.X, eqR3in(o.A, v.A)), lbl)
+		}
+	case 5:
+		v := r3f{X: x, Y: verif.Int32("y"), Z: z}
+		var o r3f
+		if rt(v, &o) {
+			verif.Assert(verif.And(verif.And(o.X == v.X, o.Y == v.Y), o.Z == v.Z), lbl)
+		}
+	}
+	verif.Reach("dotted round trip compared")
+}
